@@ -516,6 +516,7 @@ class Unit:
         sub = Unit(c) if False else None
         env = dict(bound)
         cu = _unit_cache(c)
+        cu.bind_callee_locals(ex, env, bound)
         saved_unit = ex.unit
         # requires of the callee are obligations of the caller
         ex.unit = cu
@@ -534,7 +535,6 @@ class Unit:
                 if lname in env or "." in lname:
                     continue
                 env[lname] = result if lname in c.result_alias else ex.fresh(kind, "%s.%s" % (name.split(".")[-1], lname))
-            cu.bind_callee_locals(ex, env, bound)
             saved_old = ex.old_envs
             ex.old_envs = [dict(bound)]
             for label, cl in c.ensures.items():
